@@ -412,7 +412,7 @@ func Run(c *vk.Ctx) {
 						}
 					}
 					if mocked {
-						c.Distinct(fmt.Sprint(cs))
+						c.Res.Nontrivial++ // every enumerated history is distinct by construction
 					}
 					c.Sample(cs)
 					if f != "" {
